@@ -7,6 +7,7 @@ from .. import paths as P
 from .. import terms as T
 from ..model import AnalysisError, Program
 from ..report import Report
+from . import effects as E
 
 EXPLANATION = (
     "R19.1 the module-level re-entrancy guard is released on every normal exit of the inner wrap(): each return path that added its key to _stack "
@@ -221,6 +222,31 @@ def run(prog: Program, rep: Report, tier: str):
     rep.check(ok_new, "R19.3", q, f.loc, "new class = cls.__class__(cls.__name__, cls.__bases__, {**cls.__dict__, …})", "the slotted class is not rebuilt from the original's metaclass, name, bases and a copy of its dict", detail="rebuild")
     qn = all(any(e[0] == "setattr" and e[2] == "__qualname__" and e[3] == ("attr", CLS, "__qualname__") and e[1] == built.get(i) for e in pth.events) for i, pth in enumerate(rets))
     rep.check(qn, "R19.3", q, f.loc, "__qualname__ is propagated to the new class", "__qualname__ is not propagated: type() resets it, nested classes lose their qualified name (pickle by reference breaks)", detail="qualname")
+    # methods that hold the class in a closure cell (zero-argument super(), the __setattr__/__delattr__ dataclass(frozen=True)
+    # generates) hold the *old* class: the functions of the copied namespace are re-bound (copies with fresh cells)
+    def rebinds(fn, depth=0):
+        try:
+            fps = P.paths_of(prog, fn)
+        except Exception:
+            return False
+        for pth in fps:
+            for tm in pth.all_terms():
+                for x in T.walk(tm):
+                    if T.is_call_to(x, "types.CellType", "types.FunctionType") or (x[0] == "attr" and x[2] == "cell_contents"):
+                        return True
+            for ev2 in pth.events:
+                if ev2[0] == "setattr" and ev2[2] == "cell_contents":
+                    return True
+        if depth < 2:
+            for cn in E.callees(prog, fn):
+                g = prog.functions.get(cn)
+                if g is not None and g is not fn and rebinds(g, depth + 1):
+                    return True
+        return False
+
+    wrap_fn = P.nested_function(prog, f, "wrap") if hasattr(P, "nested_function") else None
+    rebound = (wrap_fn is not None and rebinds(wrap_fn)) or rebinds(f)
+    rep.check(rebound, "R19.3", q, f.loc, "functions of the copied namespace that hold the class in a closure cell are re-bound to the new class", "the rebuilt class shares its functions with the original, closure cells included: a method using zero-argument super() (user __getstate__/__setstate__ that extend the base's) raises TypeError ('super(type, obj): obj must be an instance or subtype of type') on copy / pickle, and the __setattr__ of a frozen dataclass raises that TypeError instead of FrozenInstanceError (typelib.Codec[int](...) cannot be constructed)", detail="class-cells")
     returned = all(pth.exit[1] == built.get(i) for i, pth in enumerate(rets))
     rep.check(returned, "R19.3", q, f.loc, "the rebuilt class is what wrap() returns", "wrap() does not return the rebuilt class", detail="returns")
     # R19.4
